@@ -4,7 +4,7 @@
  "restrict_fp": ["qb_rb_open_2.function_pointer_call.1/verif_destroy_fn"],
  "stubs": ["sysconf(_SC_PAGESIZE) in {4096, 16384, 65536}", "qb_sys_mmap_file_open / mmap / qb_sys_circular_mmap (fresh mappings of the requested length, mapped twice) / qb_rb_sem_create / close / unlink / munmap / snprintf / strlcpy"],
  "drops": ["qb_util_log/qb_util_perror diagnostics compiled out (stubs/nolog.h)"],
- "expect_classes": ["assertion"], "timeout": 300, "cbmc_flags": ["--no-malloc-may-fail"]}
+ "expect_classes": ["assertion"], "timeout": 300, "sat_solver": "minisat2", "cbmc_flags": ["--no-malloc-may-fail"]}
 */
 /* qb_rb_open_2(name, S, CREATE...): the capacity in bytes is S + 13 rounded up to the page size, so
  * S + 13 <= 4 * word_size ("size" means the largest single write); both positions start at 0 and the
@@ -41,12 +41,8 @@ static size_t verif_strlcpy(char *dest, const char *src, size_t maxlen) { if (ma
 #define close verif_close
 #define unlink verif_unlink
 #define strlcpy verif_strlcpy
-#include "common.h"
-
-static int32_t verif_destroy_fn(void *inst) { return 0; }
-int32_t (*verif_keep_destroy_fn)(void *) = verif_destroy_fn;   /* address taken so the pin target exists */
-
-int32_t qb_sys_mmap_file_open(char *path, const char *file, size_t bytes, uint32_t file_flags)
+#include "ringbuffer_int.h"
+static int32_t verif_qb_sys_mmap_file_open(char *path, const char *file, size_t bytes, uint32_t file_flags)
 {
 	VERIF_ND(int32_t, nd_fd);
 	ASSUME(nd_fd >= -4095);   /* a descriptor or -errno */
@@ -54,7 +50,7 @@ int32_t qb_sys_mmap_file_open(char *path, const char *file, size_t bytes, uint32
 	if (nd_fd >= 0) { verif_open_files++; }
 	return nd_fd;
 }
-int32_t qb_sys_circular_mmap(int32_t fd, void **buf, size_t bytes)
+static int32_t verif_qb_sys_circular_mmap(int32_t fd, void **buf, size_t bytes)
 {
 	VERIF_ND(uint8_t, nd_circ_fails);
 	verif_open_files--;   /* "this function closes fd_data" */
@@ -65,19 +61,27 @@ int32_t qb_sys_circular_mmap(int32_t fd, void **buf, size_t bytes)
 	verif_data_bytes = bytes;
 	return 0;
 }
-int32_t qb_rb_sem_create(struct qb_ringbuffer_s *rb, uint32_t flags)
+static int32_t verif_qb_rb_sem_create(struct qb_ringbuffer_s *rb, uint32_t flags)
 {
 	VERIF_ND(int32_t, nd_sem_rc);
 	ASSUME(nd_sem_rc <= 0 && nd_sem_rc >= -4095);   /* 0 or -errno */
 	return nd_sem_rc;
 }
 
+#define qb_sys_mmap_file_open verif_qb_sys_mmap_file_open
+#define qb_sys_circular_mmap verif_qb_sys_circular_mmap
+#define qb_rb_sem_create verif_qb_rb_sem_create
+#include "common.h"
+
+static int32_t verif_destroy_fn(void *inst) { return 0; }
+int32_t (*verif_keep_destroy_fn)(void *) = verif_destroy_fn;   /* address taken so the pin target exists */
+
 void harness(void)
 {
 	VERIF_ND(size_t, nd_S);
 	VERIF_ND(size_t, nd_user);
 	VERIF_ND(uint32_t, nd_flags);
-	ASSUME(nd_S <= (1u << 22) && nd_user <= 64);
+	ASSUME(nd_S <= (1u << 17) && nd_user <= 64);   /* range: sizes up to 128 KiB around every page multiple */
 	ASSUME(nd_flags & QB_RB_FLAG_CREATE);
 	verif_open_files = 0;
 
